@@ -4,7 +4,8 @@ U = "UNIT SCOPE ONLY (no harness runs the compiler or a Sequence/Choice/greedy v
 claim("C01", U + "For bare single-operator programs - Atom[c], Atom[c1,c2] (flag i on/off), CharClass over static inversion "
       "lists ('.', '.' with s, [a-c], \\s, {c}), GreedyFixed / ReluctantFixed / UnambiguousRepeat / reluctant variable Repeat over "
       "Atom[c] with min<=2, max in {1,2,3,unbounded} - run through the real search loop (ReMatcher::matches/match_at): the answer "
-      "equals a closed-form substring-membership oracle for every input up to 2 chars (3 thorough) over ALL Unicode scalar values and "
+      "equals a closed-form substring-membership oracle for every input up to 2 chars (3 thorough for Atom/CharClass programs; the "
+      "repeat operators with symbolic bounds exhaust 24 GB at 3) over ALL Unicode scalar values and "
       "every search start; plus full-width (all usize) min<=max arithmetic of the four repeat operators.", "DESIGN.md 4 C01")
 claim("C02", U + "Same programs: match start = leftmost admissible position, match end = longest admissible run for greedy operators and "
       "shortest for reluctant ones (zero-occurrence first); complete yield order of the GreedyFixed (strictly descending, never below "
@@ -39,9 +40,11 @@ claim("C07", "Flag clause and two tables only: ReFlags::new(f, dialect) is Ok if
 claim("C08", "Search-loop shortcuts and two local soundness conditions only: bare programs with prefix / initial_char_class / "
       "minimum_length / OPT_HASBOL set as ReProgram::new sets them give exactly the oracle answers of their shortcut-free twins "
       "(C01/C02 harnesses), incl. case-blind prefix scan and line seeking; first-set of a literal contains every character its first "
-      "char can match (real ICU closure, all x); CharacterClass::is_disjoint has no false positives for {x} vs [lo,hi) incl. ranges "
-      "beyond the 100-char scan threshold; operators probed beyond the input end by positional preconditions do not panic. "
-      "Derivation of the shortcut fields, no_ambiguity and optimize() themselves are outside.", "DESIGN.md 4 C08")
+      "char can match (real ICU closure, all x); ReCompiler::no_ambiguity answers false before every repeat that can match empty and, "
+      "for reluctant repeats, before the end of the program (is_disjoint stubbed by an arbitrary answer); operators probed beyond "
+      "the input end by positional preconditions do not panic. Derivation of the shortcut fields (ReProgram::new, "
+      "add_precondition), optimize() and CharacterClass::is_disjoint itself (its 100-iteration scan does not finish under CBMC) "
+      "are outside.", "DESIGN.md 4 C08")
 claim("C09", "SLICE SCOPE. ReCompiler::parse_character_class and CharacterClassBuilder's union/complement/difference/build, extracted "
       "verbatim on every run, with every set represented by the membership of ONE symbolic probe character (exact for that "
       "character) - so each statement holds for all probes at once: [a], [ab], [a-b] denote exactly those characters (all non-meta "
